@@ -9,9 +9,16 @@ CLAIMS = {
  "C15": ("5 C15",
          "Coq theorems (unbounded payload/key/offset/alignment/chunking): all four masker models compute the byte-wise XOR "
          "spec, involution, pointer = bytes processed; models tied to the code by a differential sweep of the real pure-Python "
-         "and freshly compiled NVX maskers (forced buffer alignments) against naive XOR and the Gallina model.",
+         "and freshly compiled NVX maskers (forced buffer alignments) against naive XOR and the Gallina model. Role policy: "
+         "client frames carry the MASK bit, the next key and payload XOR key, server frames none (theorems over the send "
+         "model); 'by default' is carried by a plumbing table regenerated from the real factories on every run "
+         "(setProtocolOptions per masking keyword x prior value x absent/True/False, neutrality of all other keywords, "
+         "factory->connection copy) with theorems that any sequence of calls naming no masking option leaves the generated "
+         "defaults = the model's defaults; run on the real protocols over configurations x every send API (whole, "
+         "fragmented, frame API, streaming API, prepared messages, ping/pong/close), both roles and frameworks.",
          "Trusted: Coq kernel; hand-written model of xormasker.py/_xormasker.c tied by differential runs (not a translator); "
-         "C memory safety not modelled. Role policy (client masks/server does not) is proved in the C01/WsSend model.",
+         "C memory safety not modelled. The send-frame model (WsSend.build_frame) is tied to sendFrame by C01's run; the "
+         "option-plumbing translator reads values by evaluation and assumes the factories are deterministic.",
          "Coq proof by list induction + correspondence sweep vs real code"),
  "C09": ("5 C09",
          "Coq theorems over tables regenerated from the source on every run: all 2304 transitions of the Python table, the C "
